@@ -21,6 +21,7 @@ import (
 
 	"github.com/jdillenkofer/pithos/internal/storage"
 	"github.com/jdillenkofer/pithos/internal/storage/database"
+	"github.com/jdillenkofer/pithos/internal/storage/metadatapart/partstore"
 	"github.com/jdillenkofer/pithos/verifharness/ev"
 	"github.com/jdillenkofer/pithos/verifharness/gen"
 	"github.com/jdillenkofer/pithos/verifharness/stacks"
@@ -55,6 +56,37 @@ type Case struct {
 	Epilogue string `json:"epilogue"`
 	// PostDouble: after everything was closed, close every reader once more.
 	PostDouble bool `json:"post_double"`
+	// CloseFault: the readers of the base part store report an error from Close (after closing). Reads and
+	// Closes of the range readers may then fail with that error; the transaction clauses stay as they are:
+	// held while a reader was never closed, released once every reader was closed (seeded defect S-C36-3).
+	CloseFault bool `json:"close_fault,omitempty"`
+}
+
+var errCloseFault = errors.New("verif: close fault")
+
+type closeFaultStore struct{ partstore.PartStore }
+
+func (s closeFaultStore) Capabilities() partstore.Capabilities {
+	return partstore.CapabilitiesOf(s.PartStore)
+}
+
+func (s closeFaultStore) GetPart(ctx context.Context, tx database.Tx, id partstore.PartId) (io.ReadCloser, error) {
+	rc, err := s.PartStore.GetPart(ctx, tx, id)
+	if err != nil {
+		return nil, err
+	}
+	return closeFaultReader{rc}, nil
+}
+
+type closeFaultReader struct{ io.ReadCloser }
+
+func (r closeFaultReader) Close() error {
+	r.ReadCloser.Close()
+	return errCloseFault
+}
+
+func isCloseFault(err error) bool {
+	return err != nil && strings.Contains(err.Error(), errCloseFault.Error())
 }
 
 // ---- recording database wrapper -------------------------------------------------
@@ -156,6 +188,7 @@ func toByteRange(r Range) storage.ByteRange {
 func genCase(t *rapid.T, env *ev.Env) Case {
 	var c Case
 	c.Stack = rapid.SampledFrom([]string{"P1", "P1", "P1", "P1", "P1", "P1", "P5", "P5", "P13"}).Draw(t, "stack")
+	c.CloseFault = rapid.IntRange(0, 5).Draw(t, "closeFault") == 2
 	nparts := rapid.SampledFrom([]int{1, 2, 2, 3, 3}).Draw(t, "nparts")
 	if nparts == 1 {
 		c.Build = "put"
@@ -273,7 +306,12 @@ func runCase(env *ev.Env, c Case) (o ev.Outcome) {
 		return
 	}
 	db := &recDB{Database: rawDB}
-	inst, err := stacks.OpenWithDB(dir, db, stacks.LayoutFor(c.Stack), stacks.Options{})
+	sopts := stacks.Options{}
+	if c.CloseFault {
+		sopts.WrapBase = func(name string, ps partstore.PartStore) partstore.PartStore { return closeFaultStore{ps} }
+		o.Class("close-fault-on-part-readers")
+	}
+	inst, err := stacks.OpenWithDB(dir, db, stacks.LayoutFor(c.Stack), sopts)
 	if err != nil {
 		rawDB.Close()
 		o.Failf("harness: open stack %s: %v", c.Stack, err)
@@ -531,6 +569,12 @@ func runCase(env *ev.Env, c Case) (o ev.Outcome) {
 				r.broken = true
 				return true
 			}
+			if c.CloseFault && isCloseFault(err) {
+				// the injected Close error of a part reader surfaced in a Read: this reader is done for
+				o.Count("close_fault_surfaced_in_read", 1)
+				r.broken = true
+				return true
+			}
 			o.Failf("%s: reader %d failed after %d of %d bytes: %v (closes so far %d over %d distinct of %d readers)", when, i, r.off, len(r.want), err, totalCloses, distinctClosed, nr)
 			return false
 		}
@@ -580,6 +624,10 @@ func runCase(env *ev.Env, c Case) (o ev.Outcome) {
 		r.closes++
 		if first {
 			distinctClosed++
+		}
+		if err != nil && c.CloseFault && isCloseFault(err) {
+			o.Count("close_fault_returned_by_close", 1)
+			err = nil
 		}
 		if err != nil {
 			if first && !(isTxDone(err) && tolerate("close-error")) {
